@@ -38,6 +38,17 @@ def ref_step(crc_bits, byte_bits, poly, width):
 
 def _run_crc(F, R, name, width, poly, exit_check):
     fn = F.fn("sdcard::proto::" + name)
+    try:
+        return _run_crc_inner(F, R, fn, name, width, poly, exit_check)
+    except (Undecided, KeyError) as e:
+        # the proof is by induction over the message: init / one uniform byte step / exit.  A function that is not of that
+        # shape (length-dependent fast paths, chunked or padded processing) is outside what this proof establishes, and a
+        # proof-level check that cannot establish its claim fails.
+        R.bad(fn, name + ":shape", "%s is not one uniform byte step folded over the message bytes in order (%s): equality with the polynomial remainder cannot be established for every message length" % (name, e.args[0] if e.args else e), fn.loc(0))
+        return 1, 0
+
+
+def _run_crc_inner(F, R, fn, name, width, poly, exit_check):
     I = Interp(F, mode="bv", max_paths=20000, max_steps=2000000)
     h, body, nb, nt, sw = _loop_parts(fn)
     # the running remainder: the integer local initialised before the loop, updated inside it and read after it
